@@ -217,6 +217,9 @@ def dry_runs():
     yield 'F3_exact_forms', dict(t='ab', unicode_mode=True, astext=False, single=False, k=2)
 
 
+PROBES = ['expect_core']      # representation probes (harness/probes.py) this harness depends on
+
+
 MANIFEST_ENTRY = {
     'level_text': 'Bounded symbolic verification of the real compile_pattern_list/_coerce_expect_*/expect/expect_list/'
                   'expect_exact: symbolic pattern text (<=3 ASCII characters), a symbolic set of five regex flags, '
